@@ -475,6 +475,33 @@ vbi_bit_slicer_init(vbi_bit_slicer *slicer,
 			 + sampling_rate * 256.0 / bit_rate * .25 + 128);
 		break;
 	}
+
+	{
+		long long look_ahead;
+		int data_bits = payload + frc_bits;
+
+		/* The payload loop has no data end check. Relative to the
+		   sample where the CRI search stops it reads the sample of
+		   the last FRC or payload bit and its right neighbour
+		   (linear interpolation), which can be more than the
+		   room left by cri_bytes above. Stop searching early enough
+		   that all samples read lie within raw_samples. */
+		look_ahead = ((slicer->phase_shift
+			       + (long long)((data_bits > 0) ? data_bits - 1 : 0)
+			       * slicer->step) >> 8) + 1;
+
+		look_ahead = raw_samples - look_ahead; /* new limit */
+
+		if (look_ahead < 0)
+			look_ahead = 0;
+
+		if (slicer->cri_bytes > look_ahead)
+			slicer->cri_bytes = (int) look_ahead;
+
+		/* The loop counter is unsigned. */
+		if (slicer->cri_bytes < 0)
+			slicer->cri_bytes = 0;
+	}
 }
 
 /**
